@@ -280,6 +280,44 @@ func c10Custom(r *core.Run, tier string) {
 	close(ch)
 	wg.Wait()
 	bfsHist := len(hists)
+	// (i') the same destination states through the REAL command (it has a front end of its own: argument handling,
+	// reading, and whatever it decides from the files it finds): every program over an existing longer, shorter and
+	// identical destination file, written AFTER the source file (i.e. newer than it)
+	var cliLeft int64
+	{
+		var cw sync.WaitGroup
+		csem := make(chan struct{}, p.N)
+		for i, src := range pool {
+			if refs[i].parseErr {
+				continue
+			}
+			pres := [][]byte{bytes.Repeat([]byte("OLD!"), 8192), []byte("x"), append([]byte{}, refs[i].out...), append(append([]byte{}, refs[i].out...), 0xEE)}
+			for k, pre := range pres {
+				cw.Add(1)
+				csem <- struct{}{}
+				go func(i, k int, src string, pre []byte) {
+					defer cw.Done()
+					defer func() { <-csem }()
+					got := p.CLI(src, pre, true)
+					mu.Lock()
+					cliLeft++
+					mu.Unlock()
+					if !bytes.Equal(got.Out, refs[i].out) {
+						dev := "output_differs_from_fresh_process"
+						if bytes.Equal(got.Out, pre) {
+							dev = "existing_destination_left_untouched"
+						} else if len(got.Out) > len(refs[i].out) && bytes.HasPrefix(got.Out, refs[i].out) {
+							dev = "leftover_destination_shows_through"
+						}
+						r.AddFail("cli_leftover", fmt.Sprintf("command: p%d over existing destination %d", i, k), map[string]string{"prog": fmt.Sprint(i), "pre": fmt.Sprint(k)}, []string{src},
+							core.Fail{Facet: "history", Dev: dev, Detail: fmt.Sprintf("got %d bytes %x..., a fresh destination gives %d bytes %x...", len(got.Out), got.Out[:min(len(got.Out), 24)], len(refs[i].out), refs[i].out[:min(len(refs[i].out), 24)])})
+					}
+				}(i, k, src, pre)
+			}
+		}
+		cw.Wait()
+		r.AddNT("cli_leftover")
+	}
 	// (ii) thorough: every ordered triple of operations as a window of a de Bruijn sequence B(k,3), on live workers
 	windows := 0
 	if tier == "thorough" {
@@ -319,8 +357,8 @@ func c10Custom(r *core.Run, tier string) {
 	}
 	r.AddSample(map[string]any{"history": []string{ops[0].String(), ops[len(ops)-1].String()}, "programs": len(pool)})
 	r.AddSample(map[string]any{"program_2": pool[2]})
-	r.AddCustom("histories", fmt.Sprintf("operations = assemble(p, destination state) for %d programs x 3 destination states", len(pool))+" + reassemble-the-same-tree x 3; explored: every history of length 1 and every pair (quick: over a 15-operation subset) from a fresh process (breadth first, successor = replay on a fresh worker), thorough: every ordered triple as a window of a de Bruijn sequence on live workers; invariant on every transition: output and diagnostics equal those of a fresh process, leftover destination never shows, process-global tables and the parsed tree unchanged",
-		map[string]any{"programs": len(pool), "operations": len(ops), "pairs_over": len(sub)}, int64(len(states))+int64(bfsHist), transitions, executed, int64(len(pool)), len(states), true, time.Since(t0).Seconds())
+	r.AddCustom("histories", fmt.Sprintf("operations = assemble(p, destination state) for %d programs x 3 destination states", len(pool))+" + reassemble-the-same-tree x 3; explored: every history of length 1 and every pair (quick: over a 15-operation subset) from a fresh process (breadth first, successor = replay on a fresh worker), thorough: every ordered triple as a window of a de Bruijn sequence on live workers; every program also through the REAL command over 4 kinds of existing destination file (longer, shorter, identical, identical + 1 byte; all newer than the source); invariant on every transition: output and diagnostics equal those of a fresh process, leftover destination never shows, process-global tables and the parsed tree unchanged",
+		map[string]any{"programs": len(pool), "operations": len(ops), "pairs_over": len(sub)}, int64(len(states))+int64(bfsHist), transitions+cliLeft, executed+cliLeft, int64(len(pool)), len(states), true, time.Since(t0).Seconds())
 }
 
 // deBruijn returns a de Bruijn sequence B(k,n) over {0..k-1} (length k^n, cyclic).
